@@ -400,11 +400,11 @@ def flat_stream_to_frames(
         options = guess_options(sink)
     stream = guess_stream(options, sink)
 
-    combined: Generator[Triple | Quad] | GenericStatementSink = (
-        item for item in chain([first], statements)
-    )
+    # not a generator expression: mypyc, which this module is compiled with, builds a
+    # list from it, i.e. reads the whole input before the first frame is written
+    combined = chain([first], statements)
 
-    yield from stream_frames(stream, combined)
+    yield from stream_frames(stream, combined)  # type: ignore[arg-type]
 
 
 def flat_stream_to_file(
